@@ -45,7 +45,7 @@ class Agg:
         for k, v in o.witnesses.items(): self.witnesses.setdefault(k, v)
         for k, v in o.extra.items():
             if isinstance(v, (int, float)): self.extra[k] = self.extra.get(k, 0) + v
-            elif isinstance(v, list): self.extra.setdefault(k, []); self.extra[k] += v[:max(0, 20 - len(self.extra[k]))]
+            elif isinstance(v, list): self.extra.setdefault(k, []); self.extra[k] += v[:max(0, (400 if k == 'validate' else 20) - len(self.extra[k]))]
             elif isinstance(v, dict):
                 d = self.extra.setdefault(k, {})
                 for kk, vv in v.items(): d[kk] = max(d.get(kk, vv), vv) if isinstance(vv, (int, float)) else vv
@@ -112,7 +112,7 @@ def run_subtree(fn_path, params, prefix, max_paths, deadline, seed):
         for k, v in rec.get('witnesses', {}).items(): agg.witnesses.setdefault(k, v)
         for k, v in rec.get('extra', {}).items():
             if isinstance(v, (int, float)): agg.extra[k] = agg.extra.get(k, 0) + v
-            elif isinstance(v, list): agg.extra.setdefault(k, []); agg.extra[k] += v[:max(0, 20 - len(agg.extra[k]))]
+            elif isinstance(v, list): agg.extra.setdefault(k, []); agg.extra[k] += v[:max(0, (400 if k == 'validate' else 20) - len(agg.extra[k]))]
             elif isinstance(v, dict):
                 d = agg.extra.setdefault(k, {})
                 for kk, vv in v.items(): d[kk] = max(d.get(kk, vv), vv) if isinstance(vv, (int, float)) else vv
